@@ -419,7 +419,7 @@ def side_case(seed, quick=True):
 def run(ctx):
     quick = ctx.tier == 'quick'
     lib.stage_proof(ctx, PROP_FILES, ['Check/C13.vo'])
-    n = 100 if quick else 800
+    n = 100 if quick else 1600
     cases, metas = [], []
     for k in range(n):
         cs = ctx.rng.getrandbits(48)
@@ -439,7 +439,7 @@ def run(ctx):
         cases.append(lit)
         metas.append({'desc': {'gen': 'gen_int_case', 'case_seed': cs, 'case': d}, 'tags': {'which': d['which']}})
     bad = lib.stage_correspondence(ctx, 'models', REQ, 'check_C13', cases, metas)
-    n_side = 400 if quick else 5000
+    n_side = 400 if quick else 15000
     if bad:
         n_side *= 2
     for k in range(n_side):
